@@ -81,7 +81,7 @@ def main():
         "engines": [{"name": "vf", "path": "vf/", "serves_properties": sorted(CHECKS), "kind_free_text": "property-based testing (Hypothesis 6.168), exhaustive enumeration of bounded domains, model-based histories, Atheris fuzzing for C07 thorough"}],
         "checks": checks,
         "not_applicable": na,
-        "notes": "All checks: ./check <ID> [--tier quick|thorough] [--replay FILE]; VERIF_SEED honoured; exit 2 = harness error. Known findings / fixed defects: known_findings.json (D1-D129, all fixed by fix: commits in /repo; no open finding, no check prints a KNOWN-FINDING line). Seeded changes used for the sensitivity tests: seeded/ (227 kept after six rounds, table in DESIGN.md section 7).",
+        "notes": "All checks: ./check <ID> [--tier quick|thorough] [--replay FILE]; VERIF_SEED honoured; exit 2 = harness error. Known findings / fixed defects: known_findings.json (D1-D129, all fixed by fix: commits in /repo; no open finding, no check prints a KNOWN-FINDING line). Seeded changes used for the sensitivity tests: seeded/ (226 kept after six rounds, table in DESIGN.md section 7).",
     }
     with open(os.path.join(HERE, "MANIFEST.json"), "w") as f:
         json.dump(m, f, indent=1)
